@@ -124,6 +124,7 @@ type c36Env struct {
 	babeCfg *types.BabeConfiguration
 	version trie.TrieLayout
 	soft    bool
+	tolerateFinErr bool // SetFinalisedHash may refuse (re-finalising the head): the step then ends
 }
 
 func c36Auth(seed byte) types.GrandpaAuthoritiesRaw {
@@ -291,6 +292,10 @@ func (e *c36Env) finalise(h *types.Header, round uint64) {
 		t.Fatal(err)
 	}
 	if err := e.svc.Block.SetFinalisedHash(h.Hash(), round, setID); err != nil {
+		if e.tolerateFinErr {
+			e.mark(fmt.Sprintf("finalise #%d again in round %d refused: %v", h.Number, round, err))
+			return
+		}
 		t.Fatal(err)
 	}
 	e.acks = append(e.acks, c36Ack{at: len(e.db.log), round: round, setID: setID, number: h.Number})
@@ -366,13 +371,19 @@ func c36Scenarios() []c36Scenario {
 //   Z : finalise the current tip                      z : finalise the parent of the current tip
 func c36Generated(maxLen int) []c36Scenario {
 	var out []c36Scenario
-	alphabet := []byte("ifsxZz")
+	alphabet := []byte("ifsxZzR")
 	var rec func(cur []byte)
 	rec = func(cur []byte) {
 		if len(cur) > 0 {
 			seq := string(cur)
 			// keep sequences that contain at least one finalisation and do not finalise before any import
-			if strings.ContainsAny(seq, "Zz") {
+			// ... and 'R' (the finalised head is finalised again in a later round: an idle chain) only after a
+			// finalisation
+			rOK := true
+			if i := strings.IndexByte(seq, 'R'); i >= 0 {
+				rOK = strings.ContainsAny(seq[:i], "Zz")
+			}
+			if strings.ContainsAny(seq, "Zz") && rOK {
 				out = append(out, c36Scenario{"G:" + seq, trie.V0, func(e *c36Env, g *types.Header) { c36RunSeq(e, g, seq) }})
 			}
 		}
@@ -422,6 +433,14 @@ func c36RunSeq(e *c36Env, g *types.Header, seq string) {
 				return
 			}
 			tip = h
+		case 'R':
+			if fin == g {
+				continue
+			}
+			round++
+			e.tolerateFinErr = true
+			e.finalise(fin, round)
+			e.tolerateFinErr = false
 		case 'Z', 'z':
 			target := tip
 			if c == 'z' {
@@ -470,7 +489,7 @@ func c36Less(r1, s1, r2, s2 uint64) bool { // (set, round) lexicographic: is (r1
 func TestVerif_C36(t *testing.T) {
 	r := verifmc.NewReport("C36", "crash-prefixes", "fault_enumeration")
 	defer r.Write()
-	r.Rule = "5 scripted scenarios plus every generated scenario of up to 3 (thorough 5) steps over {import on tip, import fork, import announcing a scheduled change, import announcing a forced change, finalise tip, finalise parent of tip} on the real dot/state services (import = StoreTrie+AddBlock+HandleDigests+ApplyForcedChanges as core.handleBlock; finalise = SetJustification+SetPrevotes+SetPrecommits+SetFinalisedHash+SetLatestRound+ApplyScheduledChanges) over a logging database; for every prefix of the write-group log (batches atomic, order kept) the durable image is materialised and Service.Start is run; a case is non-trivial when the prefix cuts inside a step (not at a step boundary)"
+	r.Rule = "5 scripted scenarios plus every generated scenario of up to 3 (thorough 5) steps over {import on tip, import fork, import announcing a scheduled change, import announcing a forced change, finalise tip, finalise parent of tip, finalise the finalised head again in the next round} on the real dot/state services (import = StoreTrie+AddBlock+HandleDigests+ApplyForcedChanges as core.handleBlock; finalise = SetJustification+SetPrevotes+SetPrecommits+SetFinalisedHash+SetLatestRound+ApplyScheduledChanges) over a logging database; for every prefix of the write-group log (batches atomic, order kept) the durable image is materialised and Service.Start is run; a case is non-trivial when the prefix cuts inside a step (not at a step boundary)"
 	r.Assumption("the store applies batches atomically and keeps write order (as the property states); genesis initialisation is complete before the first crash point")
 	var evals int64
 	genLen := verifmc.Pick(3, 5)
